@@ -257,7 +257,11 @@ class Comparison:
                     self.nontrivial.add(req)
                 if len(self.samples) < 6 and imp not in TRIVIAL and self.evaluations % 997 in (1, 2):
                     self.samples.append(rec)
-                ins = scope == "in"
+                # scope: in = everything compared; m = only implementation vs model (std has no
+                # counterpart, or a documented exception applies); out = nothing (drift notes only)
+                ins = scope in ("in", "m")
+                if scope == "m":
+                    ora = "?"
                 if ins:
                     self.in_scope += 1
                 # the oracle column may be `-` when std has no counterpart (then only the model speaks)
